@@ -58,6 +58,8 @@ impl<'h> FindMatchesImpl<'h> {
         self.char_indices = self.input[offset..].char_indices();
         self.last_position = 0;
         self.offset = offset;
+        // The character in front of the new position decides whether the next one starts a line.
+        self.last_char = self.input[..offset].chars().next_back().unwrap_or('\0');
     }
 
     /// Returns the next match in the haystack.
@@ -85,7 +87,7 @@ impl<'h> FindMatchesImpl<'h> {
             } else {
                 // The iterator is exhausted.
                 // We should update the line offsets with the last character of the haystack.
-                self.record_line_offset(self.last_position + self.offset, '\0');
+                self.record_line_offset(self.input.len(), '\0');
                 break;
             }
         }
